@@ -43,74 +43,123 @@ theorem C29_addition_fallback_witness :
     let new : Ast := [⟨"x", 1⟩, ⟨"a", 2⟩, ⟨"b", 3⟩]
     diff old new = .addition 2 ⟨"b", 3⟩ ∧ update (diff old new) old = [⟨"x", 1⟩, ⟨"b", 3⟩] := by decide
 
-/-! ### the notification state machine -/
+/-! ### the notification state machine
 
-variable {Text Change Diag : Type}
+`legacy = false` is the code after the `fix:` commit (`change_kind` answers `Valid` whenever the text differs from the text of the last
+`check_file`), `legacy = true` the code at the pinned commit. -/
 
-/-- A `didSave` whose `change_kind` is not `NoChange` publishes the analysis of the current text: for every history, every
-    starting state with an open document and all parameters. -/
-theorem C29_converge (env : Env Text Change Diag) (s0 : State Text Diag) (evs : List (Event Text Change))
-    (hopen : (run env s0 evs).text.isSome)
-    (hk : (run env s0 (evs ++ [.didSave])).lastKind ≠ some .noChange) :
-    Converged env (run env s0 (evs ++ [.didSave])) := by
+variable {Text Change Diag : Type} [DecidableEq Text]
+
+/-- the invariant behind the fixed `NoChange` shortcut: what is published is the analysis of the text recorded by the last `check_file` -/
+def Inv (env : Env Text Change Diag) (s : State Text Diag) : Prop :=
+  ∀ t, s.publishedOf = some t → s.published = some (env.analyse t)
+
+theorem quickCheck_pub (env : Env Text Change Diag) (c : Change) (s : State Text Diag) :
+    (quickCheck env c s).published = s.published ∧ (quickCheck env c s).publishedOf = s.publishedOf := by
+  unfold quickCheck
+  split
+  · split
+    · dsimp only
+      split
+      · exact ⟨rfl, rfl⟩
+      · split <;> exact ⟨rfl, rfl⟩
+    · exact ⟨rfl, rfl⟩
+  · exact ⟨rfl, rfl⟩
+
+theorem C29_inv_step (legacy : Bool) (env : Env Text Change Diag) (s : State Text Diag) (ev : Event Text Change) (h : Inv env s) :
+    Inv env (step legacy env s ev) := by
+  cases ev with
+  | didOpen t => intro t' ht; simp [step, checkFile] at ht ⊢; rw [ht]
+  | didChange c =>
+    intro t' ht
+    simp only [step] at ht ⊢
+    split at ht
+    · rename_i htr; simp only [htr, if_true]
+      rw [(quickCheck_pub env c s).2] at ht; rw [(quickCheck_pub env c s).1]; exact h t' ht
+    · rename_i htr; simp only [htr]; exact h t' ht
+  | didSave =>
+    intro t' ht
+    simp only [step] at ht ⊢
+    split at ht
+    · rename_i hk; simp only [hk]; exact h t' ht
+    · simp only [checkFile] at ht ⊢
+      simp only [Option.some.injEq] at ht
+      rw [← ht]
+    · exact h t' ht
+
+theorem C29_inv_run (legacy : Bool) (env : Env Text Change Diag) (evs : List (Event Text Change)) :
+    ∀ s, Inv env s → Inv env (run legacy env s evs) := by
+  induction evs with
+  | nil => intro s h; exact h
+  | cons e es ih => intro s h; exact ih _ (C29_inv_step legacy env s e h)
+
+/-- THE PROPERTY, for the repaired code: for every analysis, parser, lowerer verdict, workspace shape and every notification history
+    (starting from the empty state) in which the document is open, a `didSave` leaves published the analysis of the current text —
+    which is what a freshly started server publishes for it. -/
+theorem C29_converge_full (env : Env Text Change Diag) (evs : List (Event Text Change))
+    (hopen : (run false env State.init evs).text.isSome) :
+    Converged env (run false env State.init (evs ++ [.didSave])) := by
+  have hinv : Inv env (run false env State.init evs) := C29_inv_run false env evs _ (by intro t h; simp [State.init] at h)
   simp only [run, List.foldl_append, List.foldl_cons, List.foldl_nil] at *
-  generalize List.foldl (step env) s0 evs = s at *
+  generalize List.foldl (step false env) State.init evs = s at *
+  cases ht : s.text with
+  | none => simp [ht] at hopen
+  | some t =>
+    refine ⟨t, ?_, ?_⟩
+    · simp only [step]; split <;> simp_all [checkFile]
+    · simp only [step]
+      split
+      · rename_i hk
+        -- `NoChange` is only answered when the recorded text is the current one
+        have : s.publishedOf = some t := by
+          unfold changeKind at hk
+          by_cases hd : env.hasDeps = true
+          · by_cases hp : s.publishedOf = s.text
+            · rw [hp, ht]
+            · simp [hd, hp] at hk
+          · simp [hd] at hk
+        exact hinv t this
+      · simp_all [checkFile]
+      · simp_all
+
+/-- For the code at the pinned commit only this much holds: a `didSave` whose `change_kind` is not `NoChange` publishes the analysis of
+    the current text (every history, every starting state). -/
+theorem C29_legacy_converge (env : Env Text Change Diag) (s0 : State Text Diag) (evs : List (Event Text Change))
+    (hopen : (run true env s0 evs).text.isSome)
+    (hk : (run true env s0 (evs ++ [.didSave])).lastKind ≠ some .noChange) :
+    Converged env (run true env s0 (evs ++ [.didSave])) := by
+  simp only [run, List.foldl_append, List.foldl_cons, List.foldl_nil] at *
+  generalize List.foldl (step true env) s0 evs = s at *
   cases ht : s.text with
   | none => simp [ht] at hopen
   | some t =>
     refine ⟨t, ?_, ?_⟩
     · simp only [step]
-      cases hck : changeKind env s <;> simp [ht, checkFile, hck]
+      cases hck : changeKind true env s <;> simp [ht, checkFile]
     · simp only [step] at hk ⊢
-      cases hck : changeKind env s <;> simp_all [checkFile]
+      cases hck : changeKind true env s <;> simp_all [checkFile]
 
-/-- in a workspace where `dependencies_of` is empty (single file: the module graph does not sort / does not know the file)
-    every history that ends with `didSave` converges -/
-theorem C29_converge_no_deps (env : Env Text Change Diag) (hd : env.hasDeps = false) (s0 : State Text Diag)
-    (evs : List (Event Text Change)) (hopen : (run env s0 evs).text.isSome) :
-    Converged env (run env s0 (evs ++ [.didSave])) := by
-  apply C29_converge env s0 evs hopen
+/-- in a workspace where `dependencies_of` is empty (single file) every history that ends with `didSave` converged already before the fix -/
+theorem C29_legacy_converge_no_deps (env : Env Text Change Diag) (hd : env.hasDeps = false) (s0 : State Text Diag)
+    (evs : List (Event Text Change)) (hopen : (run true env s0 evs).text.isSome) :
+    Converged env (run true env s0 (evs ++ [.didSave])) := by
+  apply C29_legacy_converge env s0 evs hopen
   simp only [run, List.foldl_append, List.foldl_cons, List.foldl_nil]
-  generalize List.foldl (step env) s0 evs = s
+  generalize List.foldl (step true env) s0 evs = s
   cases ht : s.text <;> simp [step, changeKind, hd, checkFile, ht]
 
-/-- The cache invariant the `NoChange` shortcut relies on: what is published is the analysis of some text whose registered AST is
+/-- The cache invariant the LEGACY `NoChange` shortcut relied on: what is published is the analysis of some text whose registered AST is
     the cached one. -/
 def Sync (env : Env Text Change Diag) (s : State Text Diag) : Prop :=
   ∃ tp, s.published = some (env.analyse tp) ∧ s.cache = (env.parse tp).registered
 
-/-- `check_file` establishes the invariant … -/
-theorem C29_sync_after_check (env : Env Text Change Diag) (s : State Text Diag) (t : Text) : Sync env (checkFile env s t) :=
-  ⟨t, rfl, rfl⟩
-
-/-- … a `didChange` that does not run `quick_check_file`, or whose `quick_check_file` does not patch, keeps it … -/
-theorem C29_sync_change_no_patch (env : Env Text Change Diag) (s : State Text Diag) (c : Change) (h : Sync env s)
-    (hq : env.trigger c = false ∨ (quickCheck env c s).cache = s.cache) : Sync env (step env s (.didChange c)) := by
-  obtain ⟨tp, hp, hc⟩ := h
-  have hqp : (quickCheck env c s).published = s.published := by
-    unfold quickCheck
-    split
-    · split
-      · dsimp only
-        split
-        · rfl
-        · split <;> rfl
-      · rfl
-    · rfl
-  refine ⟨tp, ?_, ?_⟩
-  · simp only [step]; split <;> simp_all
-  · simp only [step]
-    cases hq with
-    | inl h => simp [h, hc]
-    | inr h => split <;> simp_all
-
-/-- … and under it a `NoChange` answer is right provided (1) the analysis depends on the text only through its AST WITH positions and
-    (2) the cached AST equals the new one including positions. Both extra hypotheses are forced: `C29_witness_stale_positions` breaks
-    (2), `C29_witness_stale_content` breaks `Sync` through a patching `quick_check_file`. -/
-theorem C29_nochange_partial (env : Env Text Change Diag) (s : State Text Diag) (t : Text) (a : Ast)
+/-- Under it a legacy `NoChange` answer is right provided (1) the analysis depends on the text only through its AST WITH positions and
+    (2) the cached AST equals the new one including positions. Both extra hypotheses are forced: `C29_legacy_witness_stale_positions`
+    breaks (2), `C29_legacy_witness_stale_content` breaks `Sync` through a patching `quick_check_file`. -/
+theorem C29_legacy_nochange_partial (env : Env Text Change Diag) (s : State Text Diag) (t : Text) (a : Ast)
     (hsync : Sync env s) (ht : s.text = some t) (hparse : env.parse t = .ok a) (hpos : s.cache = some a)
     (hana : ∀ t1 t2, (env.parse t1).registered = (env.parse t2).registered → env.analyse t1 = env.analyse t2) :
-    Converged env (step env s .didSave) := by
+    Converged env (step true env s .didSave) := by
   obtain ⟨tp, hp, hc⟩ := hsync
   have heq : env.analyse tp = env.analyse t := by
     apply hana; rw [← hc, hpos, hparse]; rfl
@@ -118,42 +167,40 @@ theorem C29_nochange_partial (env : Env Text Change Diag) (s : State Text Diag) 
   · simp only [step]; split <;> simp_all [checkFile]
   · simp only [step]; split <;> simp_all [checkFile]
 
-/-! #### concrete instance used for the witnesses (and by the driver): a text is its list of chunks, the analysis reports every
-chunk with its line (so it is position-sensitive, like real diagnostics) -/
+/-! #### concrete instance used for the witnesses: a text is its list of chunks, the analysis reports every chunk with its line (so it is
+position-sensitive, like real diagnostics) -/
 
 def demoEnv (deps : Bool) : Env Ast Ast Ast :=
   { parse := fun t => .ok t, analyse := fun t => t, apply := fun _ c => c, trigger := fun _ => true,
     lowerOk := fun _ _ _ => true, hasDeps := deps }
 
-/-- The property as stated (every history that ends with a save converges) is FALSE of the code when the document has dependencies:
-    a position-only edit (a comment line inserted above) is `NoChange`, the diagnostics keep their old line numbers.
-    Replayed on the real server: corpus/C29 `k:C29-nochange-stale-positions`. -/
-theorem C29_witness_stale_positions :
+/-- Before the fix the property was FALSE when the document has dependencies: a position-only edit (a comment line inserted above) is
+    `NoChange`, the diagnostics keep their old line numbers. Replayed on the real server before the fix (corpus/C29
+    `w:C29-nochange-stale-positions`); the same history converges with the repaired `change_kind`. -/
+theorem C29_legacy_witness_stale_positions :
     let t0 : Ast := [⟨"b = import \"b\"", 1⟩, ⟨"y: Str = 2", 2⟩]
     let t1 : Ast := [⟨"b = import \"b\"", 2⟩, ⟨"y: Str = 2", 3⟩]
-    let s := run (demoEnv true) State.init [.didOpen t0, .didChange t1, .didSave]
-    s.lastKind = some .noChange ∧ s.published = some t0 ∧ s.text = some t1 ∧ ¬ Converged (demoEnv true) s := by
-  refine ⟨by decide, by decide, by decide, ?_⟩
-  intro ⟨t, h1, h2⟩
-  revert h1 h2
-  simp [run, step, demoEnv, checkFile, changeKind, quickCheck, State.init, ParseRes.registered, ParseRes.forQuick, diff,
-    firstMismatch, Chunk.same, Diff.isNop]
-  intro h; subst h; decide
+    let h : List (Event Ast Ast) := [.didOpen t0, .didChange t1, .didSave]
+    let s := run true (demoEnv true) State.init h
+    (s.lastKind = some .noChange ∧ s.published = some t0 ∧ s.text = some t1) ∧
+    (run false (demoEnv true) State.init h).published = some t1 := by decide
 
-/-- `quick_check_file` patches the cached AST without publishing, so a later `NoChange` leaves the diagnostics of a text that no longer
-    exists: delete the offending chunk (edit at column 0), then insert a comment line (column 0 again, which runs `quick_check_file` on
-    the text after the first edit), then save. Replayed on the real server: corpus/C29 `k:C29-quickcheck-stale-content`. -/
-theorem C29_witness_stale_content :
+/-- `quick_check_file` patches the cached AST without publishing, so a later legacy `NoChange` left the diagnostics of a text that no
+    longer exists: delete the offending chunk (edit at column 0), insert a comment line (column 0 again, which runs `quick_check_file` on
+    the text after the first edit), save. Replayed before the fix (corpus/C29 `w:C29-quickcheck-stale-content`). -/
+theorem C29_legacy_witness_stale_content :
     let t0 : Ast := [⟨"b = import \"b\"", 1⟩, ⟨"y: Str = 2", 2⟩, ⟨"print! b.x", 3⟩]
     let t1 : Ast := [⟨"b = import \"b\"", 1⟩, ⟨"print! b.x", 2⟩]
     let t2 : Ast := [⟨"b = import \"b\"", 2⟩, ⟨"print! b.x", 3⟩]
-    let s := run (demoEnv true) State.init [.didOpen t0, .didChange t1, .didChange t2, .didSave]
-    s.lastKind = some .noChange ∧ s.published = some t0 ∧ s.text = some t2 ∧ equiv t0 t2 = false := by
-  refine ⟨by decide, by decide, by decide, by decide⟩
+    let h : List (Event Ast Ast) := [.didOpen t0, .didChange t1, .didChange t2, .didSave]
+    let s := run true (demoEnv true) State.init h
+    (s.lastKind = some .noChange ∧ s.published = some t0 ∧ s.text = some t2 ∧ equiv t0 t2 = false) ∧
+    (run false (demoEnv true) State.init h).published = some t2 := by decide
 
-/-- non-vacuity of `C29_converge` / `C29_nochange_partial`: a history whose save is `Valid`, and one whose `NoChange` is right -/
-example : (run (demoEnv true) State.init [.didOpen [⟨"x", 1⟩], .didChange [⟨"x", 1⟩, ⟨"y", 2⟩], .didSave]).lastKind = some .valid := by decide
-example : (run (demoEnv true) State.init [.didOpen [⟨"x", 1⟩], .didChange [⟨"x", 1⟩], .didSave]).lastKind = some .noChange := by decide
-example : (run (demoEnv false) State.init [.didOpen [⟨"x", 1⟩], .didChange [⟨"x", 2⟩], .didSave]).published = some [⟨"x", 2⟩] := by decide
+/-- non-vacuity: the repaired shortcut still fires (a save without any edit is `NoChange`), and a real edit is `Valid` -/
+example : (run false (demoEnv true) State.init [.didOpen [⟨"x", 1⟩], .didSave]).lastKind = some .noChange := by decide
+example : (run false (demoEnv true) State.init [.didOpen [⟨"x", 1⟩], .didChange [⟨"x", 1⟩, ⟨"y", 2⟩], .didSave]).lastKind = some .valid := by decide
+example : (run false (demoEnv true) State.init [.didOpen [⟨"x", 1⟩], .didChange [⟨"x", 2⟩], .didSave]).published = some [⟨"x", 2⟩] := by decide
+example : (run false (demoEnv true) State.init [.didOpen [⟨"x", 1⟩]]).text.isSome := by decide
 
 end ErgVerif.C29
